@@ -12,7 +12,7 @@ CONSTANTS
   Optional = {}
   Names = {"", "abc", "abcd", "iter", "logger", "metatype", "mpt.x"}
   Sizes = {0, 24}
-  Probe <- GProbe
+  Probe <- GProbeQ
   MaxAdds = 2
 CONSTRAINT Bound
 VIEW View
